@@ -115,7 +115,8 @@ def identitySup (_ m : Coords Rat) : Except Err (Coords Rat × Transform Rat) :=
   .ok (m, ⟨List.replicate k V3.zero, List.replicate k M3.one, List.replicate k V3.zero⟩)
 
 def parseCfg (minA maxIter qlo qhi thr : String) : Option WooCfg := do
-  some ⟨← minA.toNat?, (← maxIter.toInt?).toNat, ← parseRat qlo, ← parseRat qhi, ← parseRat thr⟩
+  -- a negative `min_anchors` can never stop the loop: it behaves like 0
+  some ⟨(← minA.toInt?).toNat, (← maxIter.toInt?).toNat, ← parseRat qlo, ← parseRat qhi, ← parseRat thr⟩
 
 def parseMaxIter (s : String) : Option Int := s.toInt?
 
@@ -142,9 +143,14 @@ def step (_ : Unit) (line : String) : Unit × String :=
       | some T => showE (T.asMatrix.map fun Ms => showRats (Ms.map flatM4).flatten)
       | none => "bad-op"
     | ["rot", mf, mm, n, f, mo, np, vw] =>
-      match mf.toNat?, mm.toNat?, n.toNat?, parsePairs np vw with
-      | some mf, some mm, some n, some pairs =>
-        match parseStack mf n f, parseStack mm n mo with
+      -- `n` is the atom count of both structures, or `nf:nm` for different counts
+      let ns : Option (Nat × Nat) := match n.splitOn ":" with
+        | [a] => a.toNat?.map fun k => (k, k)
+        | [a, b] => match a.toNat?, b.toNat? with | some x, some y => some (x, y) | _, _ => none
+        | _ => none
+      match mf.toNat?, mm.toNat?, ns, parsePairs np vw with
+      | some mf, some mm, some (nf, nm), some pairs =>
+        match parseStack mf nf f, parseStack mm nm mo with
         | some F, some M =>
           showE (do
             let R ← getRotation (svdStub pairs) F M
